@@ -59,6 +59,10 @@ def cases(body, valmap, call_oracle=None, start=0, limit=20000, max_visits=3):
                 # component of a tuple built on this path: `match (a, b) { .. }`
                 if len(pl["p"]) == 1 and isinstance(pl["p"][0], dict) and "n" in pl["p"][0] and (pl["l"], pl["p"][0]["n"]) in known:
                     return known[(pl["l"], pl["p"][0]["n"])]
+                # payload of an enum value built on this path: `(x as Some).0` after `x = Some(const)`
+                if len(pl["p"]) == 2 and isinstance(pl["p"][0], dict) and "dc" in pl["p"][0] and isinstance(pl["p"][1], dict) and "n" in pl["p"][1] \
+                        and known.get(("v", pl["l"])) == pl["p"][0]["dc"] and (pl["l"], pl["p"][1]["n"]) in known:
+                    return known[(pl["l"], pl["p"][1]["n"])]
                 return None
 
             def sval(op):
@@ -89,9 +93,15 @@ def cases(body, valmap, call_oracle=None, start=0, limit=20000, max_visits=3):
                     src_ = rv["op"].get("copy") or rv["op"].get("move")
                     if src_ is not None and not src_["p"] and ("v", src_["l"]) in known:
                         known[("v", l)] = known[("v", src_["l"])]
+                        for k_ in [k_ for k_ in list(known) if isinstance(k_, tuple) and k_[0] == src_["l"] and k_[0] != "v"]:
+                            known[(l, k_[1])] = known[k_]
                 elif rv["k"] == "agg" and rv.get("agg") == "adt" and rv.get("variant"):
-                    # an enum value built on this path carries its variant (`Ok(..)` returned by an inlined helper, then `?`)
+                    # an enum value built on this path carries its variant (`Ok(..)` returned by an inlined helper, then `?`) and its known payload
                     known[("v", l)] = rv["variant"].split("::")[-1]
+                    for fn_, op_ in zip(rv.get("fields") or [], rv.get("ops") or []):
+                        cv = val(op_)
+                        if cv is not None:
+                            known[(l, str(fn_))] = cv
                 elif rv["k"] == "discr" and not rv["place"]["p"] and ("v", rv["place"]["l"]) in known:
                     name_ = known[("v", rv["place"]["l"])]
                     for idx_, vn_ in rv.get("variants", []):
